@@ -40,5 +40,8 @@ Pow2(n) == 2 ^ n
 
 Zeros(n) == [i \in 1 .. n |-> 0]
 
+None == [some |-> FALSE]
+Some(x) == [some |-> TRUE, v |-> x]
+
 Clip(s, a, b) == IF a > b THEN << >> ELSE SubSeq(s, a, b)
 =============================================================================
